@@ -158,7 +158,7 @@ pub fn foreign(ctx: &Ctx) {
     let d = match crate::c18::doc(bk) {
         Ok(d) => d,
         Err(e) => {
-            ctx.machinery_error(format!("base document {bk}: {e}"));
+            ctx.violation(format!("{P}/base-document-unusable"), format!("base document {bk} (written by the real writer or encoded independently) cannot be prepared: {e}"));
             return;
         }
     };
